@@ -1284,15 +1284,38 @@ func funFloor(v *decimal.Big) (*decimal.Big, error) {
 }
 
 func funLn(v *decimal.Big) (*decimal.Big, error) {
-	result := newDecimalBig()
-	decimal.Context64.Log(result, v)
-	return result, nil
+	return logOf(v, false), nil
 }
 
 func funLog(v *decimal.Big) (*decimal.Big, error) {
+	return logOf(v, true), nil
+}
+
+// logOf is ln(v), or log10(v) when ten is set. The decimal library starts by turning an integral
+// argument into a uint64, which for a coefficient beyond 64 bits means multiplying the exponent
+// out: ln(12345678901234567890123e99999999) never returned. Such an argument is taken apart
+// first: log(c * 10^e) = log(c) + e * log(10).
+func logOf(v *decimal.Big, ten bool) *decimal.Big {
 	result := newDecimalBig()
-	decimal.Context64.Log10(result, v)
-	return result, nil
+	if v.IsFinite() && v.Sign() > 0 && v.Scale() < -64 {
+		e := decimal.New(int64(-v.Scale()), 0)
+		c := newDecimalBig().Copy(v).SetScale(0)
+		if ten {
+			decimal.Context128.Log10(result, c)
+			decimal.Context128.Add(result, result, e)
+		} else {
+			ln10 := decimal.Context128.Log(newDecimalBig(), decimal.New(10, 0))
+			decimal.Context128.Log(result, c)
+			decimal.Context128.FMA(result, e, ln10, result)
+		}
+		return decimal.Context64.Round(result)
+	}
+	if ten {
+		decimal.Context64.Log10(result, v)
+	} else {
+		decimal.Context64.Log(result, v)
+	}
+	return result
 }
 
 func funMax(nums ...*decimal.Big) (*decimal.Big, error) {
